@@ -149,7 +149,7 @@ def run(tier):
     records, rec_meta = [], []
     for (i, k, opts), r in zip(jobs, runs):
         produced = proj.produced_list(oracle[k], files_of[k])
-        defs = [d["name"] for d in oracle[k]["defs"] if d["named"]]
+        defs = proj.named_defs(oracle[k], files_of[k])
         records.append(proj.trace_record(r, produced, defs, opts))
         rec_meta.append({"part": "binary", "conf": confs[k], "opts": opts, "files": files_of[k], "argv": r["argv"],
                          "stdout": r["stdout"][-3000:], "stderr": r["stderr"][-500:], "exit": r["code"]})
@@ -160,6 +160,9 @@ def run(tier):
         if f.endswith(".circom"):
             lattice_projects.append([{"path": f, "named": True, "text": open(os.path.join(cdir, f)).read()}])
     lattice_projects.append([{"path": "big.circom", "named": True, "text": COMPLEX}, {"path": "lib.circom", "named": False, "text": COMPLEX_LIB}])
+    # a named file that is also included by another named file, in both command-line orders: user-specified all the same
+    lattice_projects.append([{"path": "big.circom", "named": True, "text": COMPLEX}, {"path": "lib.circom", "named": True, "text": COMPLEX_LIB}])
+    lattice_projects.append([{"path": "lib.circom", "named": True, "text": COMPLEX_LIB}, {"path": "big.circom", "named": True, "text": COMPLEX}])
     lattice_projects.append([{"path": "nopragma.circom", "named": True, "text": "template T() {\n  signal input a;\n  signal output b;\n  b <-- a;\n}\n"}])
     some = rnd.sample(conf_list, min(3 if tier == "quick" else 12, len(conf_list)))
     lattice_projects += [files_of[k] for k, c in some]
@@ -184,7 +187,7 @@ def run(tier):
         out_states += og.distinct
         if og.violated:
             v.drift.append("L1: Output.tla writer model violates the contract: %s" % og.violated)
-        defs = [d["name"] for d in odoc["defs"] if d["named"]]
+        defs = proj.named_defs(odoc, fs)
         for oc in read_ndjson(og.cases_path):
             opts = {"level": oc["level"], "allow": oc["allow"], "sarif": oc["sarif"], "verbose": oc["verbose"]}
             ljobs.append((len(ljobs), pi, fs, produced, defs, opts, len(oc["show"]) if produced else 0))
